@@ -77,6 +77,16 @@ func TraceFile(path string) int {
 	}
 	w.OnQuiesce = func(w *sim.World, att []*replica.Replica) {}
 	w.RunHistory(h)
+	if log, err := w.ServerLog(); err == nil {
+		for _, row := range log {
+			fmt.Printf("LOG seq=%d actor=%s cseq=%d lamport=%d vv=%s ops=%d pres=%v\n", row.ServerSeq, row.ActorID, row.ClientSeq, row.Lamport, row.VersionVector.Marshal(), len(row.Operations), row.PresenceChange != nil)
+		}
+	}
+	for _, rr := range w.Reps {
+		if rr.Doc != nil {
+			fmt.Printf("REP %s actor=%s vv=%s\n", rr.Name, rr.ID.String(), rr.Doc.VersionVector().Marshal())
+		}
+	}
 	for _, f := range w.Fail {
 		fmt.Printf("FAIL %s: %s\n", f.Kind, f.Detail)
 	}
